@@ -559,6 +559,9 @@ func runVT(idx int, beh behaviour, seed int64) *caseRec {
 	r.Mlog = append(r.Mlog, o.mlog...)
 	r.Dials = o.dials
 	r.Handled = o.handled
+	if beh.Ov != nil && beh.Ov.EmptyKeys {
+		r.NKeys = 0
+	}
 	if b.panics > 0 {
 		r.Stalls = append(r.Stalls, "the handler panicked (recovered as StreamServe would)")
 	}
